@@ -131,6 +131,20 @@ Theorem C03_dkg_reconstructs_dlog_canetti : forall (F : Type) (K : fops F), flaw
 Proof. exact @canetti_reconstructs_dlog. Qed.
 Print Assumptions C03_dkg_reconstructs_dlog_canetti.
 
+(* the same for the linear sharing given by ANY labelled matrix with D columns (an MSP as the library
+   represents it: matrix + row-to-holder labelling) — the form the correspondence check instantiates *)
+Theorem C03_dkg_reconstructs_dlog_any_msp : forall (F : Type) (K : fops F), flaws K ->
+  forall (g : F) (M : list (list F)) (labels : list N) (D : nat),
+  Forall (fun r => length r = D) M ->
+  forall (holders : list N) (parties : list (N * list F)) (S : list N) (lam shareof : N -> list F) (i0 : N) (s0 : shard),
+  NoDup (map fst parties) -> (forall j, In j (map fst parties) -> In j holders) ->
+  In (i0, Ok s0) (gennaro_run K (lrows M labels) D g holders parties) ->
+  (forall i, In i S -> exists s, In (i, Ok s) (gennaro_run K (lrows M labels) D g holders parties) /\ shareof i = sh_share s) ->
+  recon_ok K (lrows M labels) D S lam = true ->
+  recon_value K S lam shareof = secret_sum K parties /\ sh_pk s0 = fmul K (secret_sum K parties) g.
+Proof. exact gennaro_reconstructs_dlog_msp. Qed.
+Print Assumptions C03_dkg_reconstructs_dlog_any_msp.
+
 (* ---- dkg_depends_on_all: shifting one party's secret (first scalar of its tape) by δ shifts the
    key by δ·g; so for δ ≠ 0 (and g ≠ 0) the key changes -------------------------------------------- *)
 Theorem C03_dkg_depends_on_all_gennaro : forall (F : Type) (K : fops F), flaws K ->
